@@ -47,6 +47,7 @@ class RefDec:
         self.lenient = lenient_values
         self.value_warnings = []  # (index into events of the offending event, path, type, value)
         self.command_code = None
+        self.trace = []  # (path, type key, offset, width, role) of every primitive consumed
 
     def tname(self, tref):
         if isinstance(tref, list):
@@ -54,7 +55,7 @@ class RefDec:
         return self.T[tref]["name"]
 
     # ---- leaves
-    def prim(self, t, path):
+    def prim(self, t, path, role="leaf"):
         d = self.T[t]
         w = d["width"]
         crossed = []
@@ -81,6 +82,7 @@ class RefDec:
             v = v * 256 + self.b[self.pos + i]
         if d["signed"] and v >= 2 ** (8 * w - 1):
             v = v - 2 ** (8 * w)
+        self.trace.append((path, t, self.pos, w, role))
         self.pos += w
         for r in self.regions:
             r.counted += w
@@ -128,7 +130,7 @@ class RefDec:
     def tpm2b(self, t, path):
         (sn, st), (bn, bt) = self.T[t]["fields"]
         self.events.append((path, self.T[t]["name"], ELL))
-        size = self.prim(st, path + "." + sn)
+        size = self.prim(st, path + "." + sn, role="size")
         r = self.open_region(path + "." + sn, size)
         if isinstance(bt, list):
             self.lst(bt[1], path + "." + bn, size)
@@ -149,7 +151,8 @@ class RefDec:
         flds = [list(f) for f in d["fields"]]
         if enc:
             flds[0] = [flds[0][0], self.WK["TPM2B_ENCRYPTED_PARAM"]]
-        for fn, ft in flds:
+        selnames = set(d.get("selectors", {}).values())
+        for i, (fn, ft) in enumerate(flds):
             p = path + "." + fn
             if isinstance(ft, list):
                 self.lst(ft[1], p, prev)
@@ -157,10 +160,19 @@ class RefDec:
             if self.T[ft]["kind"] == "union":
                 self.union(ft, p, vals[d["selectors"][fn]])
                 continue
-            v = self.decode(ft, p)
-            vals[fn] = v
             if self.T[ft]["kind"] == "prim":
+                role = "leaf"
+                if fn in selnames:
+                    role = "selector"
+                elif i + 1 < len(flds) and isinstance(flds[i + 1][1], list):
+                    role = "count"
+                elif fn == "sessionAttributes":
+                    role = "attr"
+                v = self.prim(ft, p, role=role)
                 prev = v
+            else:
+                v = self.decode(ft, p)
+            vals[fn] = v
         return vals
 
     def union(self, t, path, sel):
@@ -209,10 +221,10 @@ class RefDec:
         cmd = Region(path + ".commandSize", None)
         self.regions.append(cmd)
         self.events.append((path, "Command", ELL))
-        tag = self.prim(self.WK["Command.tag"], path + ".tag")
-        size = self.prim(self.WK["Command.commandSize"], path + ".commandSize")
+        tag = self.prim(self.WK["Command.tag"], path + ".tag", role="hdr")
+        size = self.prim(self.WK["Command.commandSize"], path + ".commandSize", role="size")
         cmd.limit = size
-        cc = self.prim(self.WK["Command.commandCode"], path + ".commandCode")
+        cc = self.prim(self.WK["Command.commandCode"], path + ".commandCode", role="hdr")
         self.command_code = cc
         tab = self.cc_entry(cc)
         if tab is None:
@@ -221,7 +233,7 @@ class RefDec:
         dec = False
         encr = False
         if tag == TAG_SESSIONS:
-            asz = self.prim(self.WK["Command.authSize"], path + ".authSize")
+            asz = self.prim(self.WK["Command.authSize"], path + ".authSize", role="size")
             ar = self.open_region(path + ".authSize", asz)
             attrs = self.sessions(self.WK["Command.authorizationArea"][1], path + ".authorizationArea", ar)
             self.close_region(ar)
@@ -240,15 +252,15 @@ class RefDec:
         rsp = Region(path + ".responseSize", None)
         self.regions.append(rsp)
         self.events.append((path, "Response", ELL))
-        tag = self.prim(self.WK["Response.tag"], path + ".tag")
-        size = self.prim(self.WK["Response.responseSize"], path + ".responseSize")
+        tag = self.prim(self.WK["Response.tag"], path + ".tag", role="hdr")
+        size = self.prim(self.WK["Response.responseSize"], path + ".responseSize", role="size")
         rsp.limit = size
-        rc = self.prim(self.WK["Response.responseCode"], path + ".responseCode")
+        rc = self.prim(self.WK["Response.responseCode"], path + ".responseCode", role="hdr")
         if rc == 0:
             tab = self.cc_entry(cc)
             self.struct(tab["rh"], path + ".handles")
             if tag == TAG_SESSIONS:
-                psz = self.prim(self.WK["Response.parameterSize"], path + ".parameterSize")
+                psz = self.prim(self.WK["Response.parameterSize"], path + ".parameterSize", role="size")
                 pr = self.open_region(path + ".parameterSize", psz)
             if enc and not self.first_is_tpm2b(tab["rp"]):
                 raise Stop("Undefined", why="encrypted response expected but first parameter is not a TPM2B")
